@@ -41,7 +41,8 @@ def cells(tier, seed):
 def explore_opts(params, tier):
     st = params["group"] == "stochastic"
     return {"timeout_s": 2.0 if tier == "quick" else 60.0, "max_paths": 6, "norm_first": True, "path_budget_s": 90.0,
-            "engine_opts": {"cut_sites": ("linear_cg", "lanczos_tridiag_to_diag") if st else (), "item_whitelist": ("linear_cg",)}}
+            "engine_opts": {"cut_sites": ("linear_cg", "lanczos_tridiag_to_diag") if st else (), "item_whitelist": ("linear_cg",),
+                            "floor_cut": True}}
 
 
 def describe(tier):
@@ -50,7 +51,8 @@ def describe(tier):
         "outside": ["probe variance of the stochastic estimator", "n > 2 for dense symbolic factors", "tolerances"],
         "assumptions": ["log is an uninterpreted function; equalities between log-linear forms are discharged through the product of the "
                         "arguments (sum c_i log a_i = log prod a_i^{c_i}), a sufficient condition",
-                        "dense oracle for A^{-1}: cofactor inverse (exact rational functions)"],
+                        "dense oracle for A^{-1}: cofactor inverse (exact rational functions)",
+                        "numerical floors (eigenvalue clamp at 1e-7 in the Kronecker logdet) are assumed not to be hit (counted under generic_case_cuts)"],
     }
 
 
